@@ -6,7 +6,7 @@ The harness server knows the methods `ok`, `echo` and the built-in `rpc.serverIn
 namespace Jrpc.Oracle.C02
 open Jrpc.Oracle Jrpc.Wire
 
-def knownMethods : List Bytes := ["ok".toUTF8.toList, "echo".toUTF8.toList, "rpc.serverInfo".toUTF8.toList]
+def knownMethods : List Bytes := ["ok".toUTF8.toList, "echo".toUTF8.toList, "rpc.serverInfo".toUTF8.toList, "m".toUTF8.toList, "m2".toUTF8.toList]
 
 def showEntry (e : ReplyEntry) : String :=
   hexOfBytes e.id ++ " " ++ (if e.codes.isEmpty then "r" else ",".intercalate (e.codes.eraseDups.map toString))
